@@ -55,6 +55,31 @@ def main():
         sh(f"git -C /repo worktree remove --force {wt}")
     confirmed = res.get("demo_without") == 0 and res.get("demo_with", 0) != 0 and "60 passed" in res.get("tests_with", "")
     res["confirmed"] = confirmed
+    if "--scratch" in sys.argv:
+        # the same checks against a scratch copy of the working tree with the patch applied (--root), all properties in parallel; leaves /repo alone,
+        # so several seeds can be evaluated at once and nothing else that reads /repo is disturbed
+        from concurrent.futures import ThreadPoolExecutor
+        sc = tempfile.mkdtemp(prefix="seedchk_sc_")
+        fired = {}
+        try:
+            for sub in ("src", "utils"):
+                shutil.copytree(os.path.join("/repo", sub), os.path.join(sc, sub), ignore=shutil.ignore_patterns("__pycache__", "*.pyc", "*.log"))
+            rc, out = sh(f"git apply {patch}", cwd=sc)
+            if rc:
+                print("patch does not apply:", out)
+                return 3
+
+            def run(pid):
+                r = subprocess.run([sys.executable, "-m", "sa.check", pid, "--root", sc, "--no-evidence"], cwd=VERIF, capture_output=True, text=True)
+                return pid, r
+            with ThreadPoolExecutor(max_workers=6) as ex:
+                for pid, r in ex.map(run, PROPS):
+                    if r.returncode != 0:
+                        lines = [l.strip() for l in r.stdout.splitlines() if l.startswith("  ") or l.startswith("ANALYSIS")]
+                        fired[pid] = {"exit": r.returncode, "lines": [l[:300] for l in lines[:6]]}
+        finally:
+            shutil.rmtree(sc, ignore_errors=True)
+        return finish(d, patch, demo, keep, res, confirmed, fired)
     # run the checks against /repo with the patch applied
     rc, out = sh("git -C /repo status --porcelain")
     if out.strip():
@@ -73,6 +98,10 @@ def main():
                 fired[pid] = {"exit": r.returncode, "lines": [l[:300] for l in lines[:6]]}
     finally:
         sh("git -C /repo checkout -- .")
+    return finish(d, patch, demo, keep, res, confirmed, fired)
+
+
+def finish(d, patch, demo, keep, res, confirmed, fired):
     res["fired"] = fired
     print(json.dumps(res, indent=1))
     if keep and confirmed:
